@@ -14,3 +14,32 @@ Theorem C01_retained_is_stream_slice : forall st i n r,
   r_data r = bslice (r_off r) (blen (r_data r)) st /\ blen (r_data r) <= r_len r /\ position i = blen st.
 Proof. exact retained_is_stream_slice_all. Qed.
 Print Assumptions C01_retained_is_stream_slice.
+
+(* static_inspector_refines_spec: for the eight inspectors whose regions all come from _initialize
+   (raw, qcow2, qed, vhd, vdi, iso, gpt, luks) the whole outcome of a run — final state, hence
+   format_match, complete, virtual_size, safety result, and "no exception" — is a function spec_f of the
+   concatenated bytes alone, for ALL byte strings and ALL chunk lists. *)
+Theorem C01_static_inspector_refines_spec : forall f cs,
+  is_static f = true -> verdict_of (run f cs) = spec_verdict f (concat cs).
+Proof. exact static_inspector_refines_spec. Qed.
+Print Assumptions C01_static_inspector_refines_spec.
+
+Theorem C01_static_final_state : forall f cs,
+  is_static f = true -> run f cs = (spec_state f (concat cs), None).
+Proof. exact static_inspector_refines_spec_state. Qed.
+Print Assumptions C01_static_final_state.
+
+Example C01_static_nonvacuous : map is_static all_formats = [true; true; true; false; false; true; true; true; true; true].
+Proof. reflexivity. Qed.
+
+(* the verdict does not change with how the stream was cut into chunks ... *)
+Theorem C01_chunking_independent : forall f cs1 cs2,
+  is_static f = true -> concat cs1 = concat cs2 -> run f cs1 = run f cs2.
+Proof. exact chunking_independent. Qed.
+Print Assumptions C01_chunking_independent.
+
+(* ... nor with empty chunks *)
+Theorem C01_empty_chunks_irrelevant : forall f cs,
+  is_static f = true -> run f (filter nonempty cs) = run f cs.
+Proof. exact empty_chunks_irrelevant. Qed.
+Print Assumptions C01_empty_chunks_irrelevant.
